@@ -131,6 +131,13 @@ pub fn run(run: &Run) {
             cp += n as u32;
         }
     });
+    super::pipe::collisions(run, "fingerprint_collisions", &|s, l| profs.iter().all(|p| match check(*p, s, l) {
+        Ok(()) => true,
+        Err(v) => {
+            run.violate(v);
+            false
+        }
+    }));
     super::pipe::stress(run, "alignment_and_runs", &super::pipe::PAYLOADS_USER, &|s, l| {
         for p in profs {
             if check(p, s, l).is_err() {
